@@ -150,8 +150,17 @@ unsafe extern "C" fn stream_write_all(sink: &mut lolhtml::streaming::CStreamingH
     if lolhtml::streaming::lol_html_streaming_sink_write_str(sink, a.as_ptr() as *const c_char, a.len(), c.html) != 0 {
         return 1;
     }
-    if lolhtml::streaming::lol_html_streaming_sink_write_utf8_chunk(sink, b.as_ptr() as *const c_char, b.len(), c.html) != 0 {
-        return 2;
+    // in byte pieces, cut exactly as the Rust driver cuts (engine::utf8_piece_sizes)
+    let rest = b.as_bytes();
+    let sizes = crate::engine::utf8_piece_sizes(&c.s);
+    let (mut at, mut k) = (0usize, 0usize);
+    while at < rest.len() {
+        let n = sizes[k % sizes.len()].min(rest.len() - at);
+        k += 1;
+        if lolhtml::streaming::lol_html_streaming_sink_write_utf8_chunk(sink, rest[at..].as_ptr() as *const c_char, n, c.html) != 0 {
+            return 2;
+        }
+        at += n;
     }
     0
 }
